@@ -160,7 +160,9 @@ def get_func(frame: FrameType) -> Optional[Callable[..., Any]]:
     # try looking at classes in global scope.
     if func is None:
         for v in frame.f_globals.values():
-            if not isinstance(v, type):
+            # not isinstance(v, type): that falls back to v.__class__, which
+            # runs user code on the traced program's global objects
+            if not issubclass(type(v), type):
                 continue
             func = get_func_in_mro(v, code)
             if func is not None:
